@@ -160,7 +160,7 @@ def check_dispatcher(ctx, rule: str, wakeups=True, consumers=True, reconnect=Non
     if puts:
         pc = next(c for c in puts[0].calls if (call_name(c) or "").startswith("self._dispatch_queue.put"))
         params = [a.arg for a in qb.node.args.args[1:]]
-        ok = bool(pc.args) and isinstance(pc.args[0], ast.Tuple) and [norm(e) for e in pc.args[0].elts] == params
+        ok = bool(pc.args) and rules.expand(qb.node, pc.args[0]) == "(" + ", ".join(params) + ")"
         ctx.ob(rule, qb.qualname, ok, "the queued item is (source, block)" if ok else f"`{norm(pc)}` does not queue (source, block)", key="item", where=qb.where)
     tr = repo.method("ProtocolDispatcher", "trigger_receiver", inherited=False)
     ok = any(call_name(c) == "self._receiver_thread_trigger.set" for c in calls_in(tr.node))
